@@ -38,3 +38,12 @@ Theorem C07_size :
       /\ (1024 <= length (req_dgram (nth i reqs req0)))%nat.
 Proof. exact reply_size. Qed.
 Print Assumptions C07_size.
+
+(* ---- tie to the source: the integer literals of the functions this property's model stands for
+   (private constants, bounds, unit factors; the files are SiteMap.files_C07) are today the ones the
+   model was written against. Gen/Sites.v num_literals is regenerated from /repo on every run; a
+   changed, added or removed number in a modelled function breaks this obligation ---- *)
+Require RV.Gen.Sites RV.Model.SiteMap.
+Theorem C07_literals_reviewed : RV.Model.SiteMap.literals_ok RV.Model.SiteMap.files_C07.
+Proof. repeat constructor. Qed.
+Print Assumptions C07_literals_reviewed.
